@@ -1,6 +1,7 @@
 CONSTANTS
   MaxLines = 3
   MaxInd = 2
+  Pool <- AllBodies
   MaxRewrites = 1
 INIT Init
 NEXT Next
